@@ -1,5 +1,6 @@
 import GrolProofs.MemoMono
 import GrolProofs.EvalInv
+import GrolProofs.EnvConst
 /-
 C04, the footprint lemma.  `applyFunction` stores a result only when the callee frame's miss
 counter is the same after the body as before (`C04.store_condition`).  This file says what that
@@ -364,5 +365,184 @@ theorem applyFunction_quiet (fuel : Nat) (f : FuncVal) (args : List Obj) (st : S
       unfold missOf
       rw [hf1, hf0]
       exact hab
+
+/-! ### reads -/
+
+/-- the binding behind the reference `.ref re rn` (handed out for the name `nm`) is one the purity
+test trusts: it holds a function value, or `nm` is all-caps and the frame is a depth-0 frame -/
+def Trusted (st : St) (nm : String) (re : Nat) (rn : String) : Prop :=
+  ∃ fr, st.frames[re]? = some fr ∧
+    ((isConstant nm = true ∧ fr.depth = 0) ∨ ∃ fn, lookupStore fr.store rn = some (.func fn))
+
+theorem depth_setIfInBounds (st : St) (e : Nat) (f : Frame) (g : Frame → Frame) (hg : (g f).depth = f.depth)
+    (h : st.frames[e]? = some f) (i : Nat) (fi : Frame)
+    (hi : (st.frames.setIfInBounds e (g f))[i]? = some fi) : ∃ fi', st.frames[i]? = some fi' ∧ fi'.depth = fi.depth := by
+  rw [Array.getElem?_setIfInBounds] at hi
+  by_cases hei : e = i
+  · subst hei
+    simp only [if_true] at hi
+    split at hi
+    · cases hi; exact ⟨f, h, hg.symm⟩
+    · cases hi
+  · simp only [hei, if_false] at hi
+    exact ⟨fi, hi, rfl⟩
+
+/-- `makeRef` that does not move the counter of the frame it works for found nothing, or made a
+reference to a trusted binding -/
+theorem makeRef_go_quiet (orig : Nat) (name : String) (fuel e : Nat) (st : St) (r : Option Obj)
+    (hok : outcome (makeRef.go orig name fuel e) st = .ok r)
+    (hq : Quiet orig (makeRef.go orig name fuel e) st) :
+    r = none ∨ ∃ re rn, r = some (.ref re rn) ∧ Trusted st name re rn := by
+  have hO : ∀ {α} (x : M α) (s : St), outcome x s = (run x s).1 := fun _ _ => rfl
+  have hS : ∀ {α} (x : M α) (s : St), stateAfter x s = (run x s).2 := fun _ _ => rfl
+  induction fuel generalizing e with
+  | zero =>
+    unfold makeRef.go at hok
+    cases hok; exact Or.inl rfl
+  | succ n ih =>
+    unfold Quiet at hq ih
+    rw [hO] at hok
+    rw [hS] at hq
+    unfold makeRef.go at hok hq
+    rw [run_bind, run_getFrame] at hok hq
+    cases hfe : st.frames[e]? with
+    | none => rw [hfe] at hok; cases hok
+    | some f =>
+    rw [hfe] at hok hq
+    dsimp only at hok hq
+    cases hfo : f.outer with
+    | none => rw [hfo] at hok; cases hok; exact Or.inl rfl
+    | some o =>
+    rw [hfo] at hok hq
+    dsimp only at hok hq
+    rw [run_bind, run_getFrame] at hok hq
+    cases hfo' : st.frames[o]? with
+    | none => rw [hfo'] at hok; cases hok
+    | some fo =>
+    rw [hfo'] at hok hq
+    dsimp only at hok hq
+    cases hl : lookupStore fo.store name with
+    | none =>
+      rw [hl] at hok hq
+      exact ih o (by rw [hO]; exact hok) (by rw [hS]; exact hq)
+    | some obj =>
+    rw [hl] at hok hq
+    dsimp only at hok hq
+    right
+    obtain ⟨re, rn, hre⟩ := refTo_isRef o name obj
+    rw [hre] at hok hq
+    rw [run_bind, run_modifyFrame] at hok hq
+    cases hfor : st.frames[orig]? with
+    | none => rw [hfor] at hok; cases hok
+    | some forig =>
+    rw [hfor] at hok hq
+    dsimp only at hok hq
+    rw [run_bind, run_getFrame] at hok hq
+    generalize hs1 : ({ st with frames := st.frames.setIfInBounds orig { forig with store := setStore forig.store name (.ref re rn) } } : St) = s1 at hok hq
+    have hs1f : s1.frames = st.frames.setIfInBounds orig { forig with store := setStore forig.store name (.ref re rn) } := by
+      rw [← hs1]
+    cases hfre : s1.frames[re]? with
+    | none => rw [hfre] at hok; cases hok
+    | some fre =>
+    rw [hfre] at hok hq
+    dsimp only at hok hq
+    simp only [pure_bind] at hok hq
+    have horig1 : ∃ f1, s1.frames[orig]? = some f1 ∧ f1.getMiss = forig.getMiss := by
+      rw [hs1f, Array.getElem?_setIfInBounds]
+      have hlt : orig < st.frames.size := by
+        cases hd : decide (orig < st.frames.size) with
+        | true => exact of_decide_eq_true hd
+        | false =>
+          have : ¬ orig < st.frames.size := of_decide_eq_false hd
+          rw [Array.getElem?_eq_none (by omega)] at hfor; cases hfor
+      simp [hlt]
+    obtain ⟨f1, hf1, hf1m⟩ := horig1
+    by_cases hc : (!(isConstant name && fre.depth == 0) && !isFuncObj obj) = true
+    · -- the counter moves: not quiet
+      exfalso
+      simp only [hc, if_true] at hq
+      rw [run_bind, run_modifyFrame, hf1] at hq
+      dsimp only at hq
+      simp only [run_pure] at hq
+      rw [missOf_setIfInBounds s1 orig f1 _ hf1] at hq
+      simp only [if_true] at hq
+      unfold missOf at hq
+      rw [hfor] at hq
+      dsimp only at hq
+      omega
+    · simp only [hc] at hok
+      simp only [Bool.false_eq_true, if_false, run_pure] at hok
+      cases hok
+      refine ⟨re, rn, rfl, ?_⟩
+      obtain ⟨fre', hfre', hdep⟩ := depth_setIfInBounds st orig forig
+        (fun f => { f with store := setStore f.store name (.ref re rn) }) rfl hfor re fre (by rw [← hs1f]; exact hfre)
+      refine ⟨fre', hfre', ?_⟩
+      have hc' : (isConstant name && fre.depth == 0) = true ∨ isFuncObj obj = true := by
+        cases h1 : (isConstant name && fre.depth == 0) <;> cases h2 : isFuncObj obj <;> simp [h1, h2] at hc ⊢
+      rcases hc' with h | h
+      · left
+        simp only [Bool.and_eq_true, beq_iff_eq] at h
+        exact ⟨h.1, by rw [hdep]; exact h.2⟩
+      · right
+        cases obj with
+        | func fn =>
+          simp only [refTo] at hre
+          cases hre
+          rw [hfo'] at hfre'
+          cases hfre'
+          exact ⟨fn, hl⟩
+        | _ => simp [isFuncObj] at h
+
+/-! ### "during": the steps of a computation -/
+
+/-- `During x st y s`: running `x` from `st` runs `y` from `s` as one of its steps (`x` is a chain of
+binds of computations that only grow counters, `y` is reached through the heads and — when the head
+succeeded — the tails of that chain) -/
+inductive During : {α β : Type} → M α → St → M β → St → Prop
+  | here {α : Type} {x : M α} {st : St} : During x st x st
+  | head {α β γ : Type} {x : M α} {f : α → M β} {y : M γ} {st s : St} (hx : Tr x) (hf : ∀ a, Tr (f a)) :
+      During x st y s → During (x >>= f) st y s
+  | tail {α β γ : Type} {x : M α} {f : α → M β} {y : M γ} {st s : St} {a : α} (hx : Tr x) (hf : ∀ a, Tr (f a))
+      (ha : outcome x st = .ok a) : During (f a) (stateAfter x st) y s → During (x >>= f) st y s
+
+/-- "after = before" is inherited by every step -/
+theorem quiet_during {α β : Type} {x : M α} {st : St} {y : M β} {s : St} {e : Nat}
+    (hd : During x st y s) (hq : Quiet e x st) : Quiet e y s := by
+  induction hd with
+  | here => exact hq
+  | head hx hf _ ih => exact ih (quiet_bind hx hf hq).1
+  | tail hx hf ha _ ih => exact ih ((quiet_bind hx hf hq).2 _ ha)
+
+/-- no step of a quiet computation is a completed `TriggerNoCache` on that frame -/
+theorem no_trigger_during {α : Type} {x : M α} {st s : St} {e : Nat}
+    (hd : During x st (triggerNoCache e) s) (hq : Quiet e x st) :
+    outcome (triggerNoCache e) s ≠ .ok () := by
+  intro hok
+  have h1 := quiet_during hd hq
+  have h2 := triggerNoCache_loud e s hok
+  unfold Quiet at h1
+  omega
+
+/-- no step of a computation that is quiet on the current frame is a completed `del` -/
+theorem no_del_during {α : Type} {x : M α} {st s : St} {fuel : Nat} {node : Node}
+    (hd : During x st (evalDelete (fuel + 1) node) s) (hq : Quiet s.cur x st) (r : Obj) :
+    outcome (evalDelete (fuel + 1) node) s ≠ .ok r := by
+  intro hok
+  have h1 := quiet_during hd hq
+  have h2 := evalDelete_loud fuel node s r hok
+  unfold Quiet at h1
+  omega
+
+/-- every nested call that is a step of a computation quiet on the call's own caller frame was a
+hit, a binding failure, or had a quiet body -/
+theorem nested_call_during {α : Type} {x : M α} {st s : St} {fuel : Nat} {f : FuncVal} {args : List Obj} {v : Obj}
+    (hd : During x st (applyFunction (fuel + 1) (.func f) args) s) (hq : Quiet s.cur x st)
+    (hok : outcome (applyFunction (fuel + 1) (.func f) args) s = .ok v) :
+    (∃ out, outcome (cacheGet f.key args) s = .ok (some (v, out))) ∨
+    (outcome (extendFunctionEnv f args) s = .ok (.error v)) ∨
+    (∃ nenv, outcome (extendFunctionEnv f args) s = .ok (.ok nenv) ∧
+      outcome (eval fuel f.body) (bodyState (stateAfter (extendFunctionEnv f args) s) nenv) = .ok v ∧
+      Quiet nenv (eval fuel f.body) (bodyState (stateAfter (extendFunctionEnv f args) s) nenv)) :=
+  applyFunction_quiet fuel f args s v hok (quiet_during hd hq)
 
 end Grol.E
